@@ -216,6 +216,7 @@ def run_shard(shard, acc):
         else:
             errors(bs, acc)
             big_values(bs, acc)
+            keyword_values(bs, acc)
 
 
 def run_seq(bs, acc, seq):
@@ -276,7 +277,7 @@ def check_format(bs, acc, items, choice, sep=', ', full=True, style='plain'):
             pass          # UNSPECIFIED: a length-less token followed by a self-delimiting token (documented error)
         else:
             expu = expected_unpack(toks, per)
-            s = bs.pack(fmt, *vals, **kw)
+            s = bs.BitStream(bin=bits)        # the reference bits, not the implementation's pack (which is judged above)
             got = obs(lambda: canon_unpacked(s.unpack(fmt, **kw)))
             e2 = ('ok', canon_unpacked(expu))
             acc.step('unpack', 1, nontrivial=1, ok=1)
@@ -378,6 +379,25 @@ def groups(bs, acc):
         check_format(bs, acc, [('empty',), ('tok', a), ('tok', b), ('empty',)], (1, 0), sep=' , ')
         check_format(bs, acc, [('tok', a), ('tok', b)], (1, 1), sep='\t,\n ')
     acc.sample(dict(event="pack('2*(u5, 2*(hex8))', ...) equals the format written out; k = 0..3; empty items; whitespace"))
+
+
+def keyword_values(bs, acc):
+    """'tok=name' takes its value from the keyword `name`: also when that value is falsy (0, False, 0.0, '', an empty bitstring)."""
+    cases = [('uint:8=a', dict(a=0), ib(0, 8)), ('int:5=a', dict(a=0), ib(0, 5)), ('bool=f', dict(f=False), '0'), ('bool=f', dict(f=0), '0'), ('float:32=x', dict(x=0.0), fbits(0.0, 32)),
+             ('hex=h', dict(h=''), ''), ('bin=b', dict(b=''), ''), ('bits=z', dict(z=''), ''), ('ue=n', dict(n=0), G.enc_ue(0)), ('se=n', dict(n=0), G.ENC['se'](0)),
+             ('uint:8=a, uint:4=b', dict(a=0, b=3), ib(0, 8) + ib(3, 4)), ('uint:8=a, uint:4=b', dict(a=7, b=0), ib(7, 8) + ib(0, 4)), ('u3=a, bool=f, u3=a', dict(a=0, f=False), '0000000'),
+             ('uint:n=a', dict(n=6, a=0), ib(0, 6)), ('2*(u4=a)', dict(a=0), '00000000'), ('uint:8=a', dict(a=5), ib(5, 8)), ('bool=f', dict(f=True), '1'), ('hex=h', dict(h='a5'), '10100101')]
+    for fmt, kw, exp in cases:
+        kwsrc = ', '.join(f"{k}={v!r}" for k, v in kw.items())
+        for rname, th, src in (('pack', lambda: bs.pack(fmt, **kw).bin, f"bitstring.pack({fmt!r}, {kwsrc}).bin"),
+                               ('pack-list', lambda: bs.pack([fmt, 'u1=one'], one=1, **kw).bin[:-1], f"bitstring.pack([{fmt!r}, 'u1=one'], one=1, {kwsrc}).bin[:-1]")):
+            got = obs(th)
+            acc.state(('kwvalue', fmt, repr(sorted(kw.items())), rname))
+            acc.step('pack', 1, nontrivial=1, ok=1)
+            if got != ('ok', exp):
+                acc.violation('pack', 'value' if got[0] == 'ok' else 'exc', dict(fmt=fmt, kwargs=repr(kw), route=rname, group='kwvalue'),
+                              '\n'.join(["import bitstring", f"assert {src} == {exp!r}"]), exp, str(got)[:100])
+    acc.sample(dict(event="pack('uint:8=a', a=0), pack('bool=f', f=False), pack('hex=h', h='')"))
 
 
 def big_values(bs, acc):
